@@ -4,6 +4,7 @@ import (
 	"go/ast"
 	"go/token"
 	"go/types"
+	"sort"
 	"strings"
 )
 
@@ -129,6 +130,30 @@ func (env *canonEnv) canon(e ast.Expr) string {
 		}
 		return "call(" + name + ";" + strings.Join(parts, ",") + ")"
 	case *ast.BinaryExpr:
+		switch x.Op {
+		case token.OR, token.AND, token.XOR, token.LAND, token.LOR, token.ADD, token.MUL:
+			// associative-commutative chains are flattened and sorted (operands are pure)
+			var ops []string
+			var flat func(e ast.Expr)
+			flat = func(e ast.Expr) {
+				e = ast.Unparen(e)
+				if b, ok := e.(*ast.BinaryExpr); ok && b.Op == x.Op && p.constOf(e) == nil {
+					flat(b.X)
+					flat(b.Y)
+					return
+				}
+				ops = append(ops, env.canon(e))
+			}
+			flat(x)
+			sort.Strings(ops)
+			return "(" + strings.Join(ops, x.Op.String()) + ")"
+		case token.EQL, token.NEQ:
+			a, b := env.canon(x.X), env.canon(x.Y)
+			if b < a {
+				a, b = b, a
+			}
+			return "(" + a + x.Op.String() + b + ")"
+		}
 		return "(" + env.canon(x.X) + x.Op.String() + env.canon(x.Y) + ")"
 	case *ast.UnaryExpr:
 		return "(" + x.Op.String() + env.canon(x.X) + ")"
@@ -182,7 +207,9 @@ func singleReturn(fd *ast.FuncDecl) []ast.Expr {
 func (env *canonEnv) canonStmts(list []ast.Stmt) string {
 	var parts []string
 	for _, s := range list {
-		parts = append(parts, env.canonStmt(s))
+		if c := env.canonStmt(s); c != "" {
+			parts = append(parts, c)
+		}
 	}
 	return strings.Join(parts, ";")
 }
@@ -196,6 +223,17 @@ func (env *canonEnv) canonStmt(s ast.Stmt) string {
 		}
 		return "return " + strings.Join(rs, ",")
 	case *ast.AssignStmt:
+		// x = x op y is rendered as x op= y
+		if x.Tok == token.ASSIGN && len(x.Lhs) == 1 && len(x.Rhs) == 1 {
+			if be, ok := ast.Unparen(x.Rhs[0]).(*ast.BinaryExpr); ok {
+				switch be.Op {
+				case token.ADD, token.SUB, token.MUL, token.OR, token.AND, token.SHL, token.SHR:
+					if env.canon(be.X) == env.canon(x.Lhs[0]) && env.p.constOf(be.X) == nil {
+						return env.canon(x.Lhs[0]) + be.Op.String() + "=" + env.canon(be.Y)
+					}
+				}
+			}
+		}
 		var l, r []string
 		for _, e := range x.Lhs {
 			l = append(l, env.canon(e))
@@ -232,6 +270,9 @@ func (env *canonEnv) canonStmt(s ast.Stmt) string {
 		return x.Tok.String()
 	case *ast.DeclStmt:
 		gd, ok := x.Decl.(*ast.GenDecl)
+		if ok && gd.Tok == token.CONST {
+			return "" // constants are folded into their uses
+		}
 		if !ok || gd.Tok != token.VAR {
 			return "?decl"
 		}
